@@ -38,8 +38,8 @@ GROWTH_MAX = 8.0  # ... then t(4n) <= 8 t(n)  (linear 4, n log n < 5, quadratic 
 # parse() of a directive-heavy file builds an AST of tens of MB whose pages are
 # first touched in every run; on a loaded VM that adds a noisy, more than
 # proportional share (8.2 x was seen on a tree whose only change was in the
-# hex-float regex), so there the limit sits between that and quadratic
-GROWTH_MAX_BIG_AST = 12.0
+# hex-float regex), so there the limit sits between that and quadratic (16)
+GROWTH_MAX_BIG_AST = 10.0
 CLEAR_EXCESS = 10.0  # a measurement this far over its limit is not contention
 
 
@@ -364,6 +364,45 @@ def _directive_work(task):
     return out
 
 
+def eval_timed_repeat(name):
+    """A repetition family timed through parse() at large k (work that is
+    neither a Python call nor a builtin container call - string slicing and
+    concatenation, a while loop over a chain - shows only here): 50 x the linear
+    extrapolation from the smallest k, and t(4k) <= 10 t(k) once both >= 20 ms."""
+    rows = []
+    t0 = None
+    for k in F.timed_repeat_sizes(name):
+        text = F.repeat_text(name, k)
+        try:
+            r = F.parse_time(text, repeat=2, run_limit=60.0)
+        except RecursionError:
+            rows.append([k, len(text), None, "rec"])
+            return {"name": name, "status": "rec", "rows": rows, "why": "recursion limit"}
+        if r[0] == "timeout":
+            rows.append([k, len(text), None, None])
+            return {"name": name, "status": "slow", "rows": rows,
+                    "why": f"k={k}: {r[1]} did not finish within {r[2]} s"}
+        t, ok, _ = r
+        rows.append([k, len(text), round(t, 6), ok])
+        if not ok:
+            return {"name": name, "status": "rejected", "rows": rows, "why": f"k={k}: not accepted"}
+        if t0 is None:
+            t0, l0 = t, len(text)
+        bound = max(LEX_MARGIN * t0 * len(text) / l0, LEX_FLOOR)
+        why = ""
+        if t > bound:
+            why = (f"k={k}: {t:.4f} s > {bound:.4f} s = {LEX_MARGIN:g} x linear extrapolation from "
+                   f"k={rows[0][0]} ({t0:.6f} s)")
+        why = why or growth_violation(rows, GROWTH_MAX_BIG_AST)
+        if why:
+            return {"name": name, "status": "slow", "rows": rows, "why": why}
+    return {"name": name, "status": "linear", "rows": rows, "why": ""}
+
+
+def _timed_repeat_work(names):
+    return [eval_timed_repeat(n) for n in names]
+
+
 def _run_work(task):
     return [eval_run_family(name, emb) for name, emb in task]
 
@@ -677,6 +716,10 @@ def run(tier):
     run_res = []
     for part in core.pmap(_run_work, core.chunked(run_tasks, 4), chunksize=1):
         run_res.extend(part)
+    timed_names = list(F.TIMED_REPEAT_QUICK) if tier == "quick" else F.repeat_names()
+    timed_res = []
+    for part in core.pmap(_timed_repeat_work, [[n] for n in timed_names], chunksize=1):
+        timed_res.extend(part)
     t_ph.append(time.time())
     dir_tasks = []
     for n in F.DIRECTIVE_FAMILIES:
@@ -705,6 +748,10 @@ def run(tier):
         if r["status"] != "linear":
             lex_rerun.append(("parse:" if r["embedded"] else "lexer:") + r["name"])
             run_res[i] = eval_run_family(r["name"], r["embedded"])
+    for i, r in enumerate(timed_res):
+        if r["status"] == "slow":
+            lex_rerun.append("timed-repeat:" + r["name"])
+            timed_res[i] = eval_timed_repeat(r["name"])
     for i, (what, r) in enumerate(dir_res):
         if what == "time" and r["status"] != "linear":
             lex_rerun.append(("parse:" if r["parse"] else "lexer:") + r["name"])
@@ -791,6 +838,22 @@ def run(tier):
                     "why": r["why"], "rows[n,len,seconds,..]": r["rows"]})
     run_worst.sort(reverse=True)
 
+    # timed repetition families
+    timed_hist = {}
+    timed_runs = 0
+    timed_worst = []
+    for r in timed_res:
+        timed_hist[r["status"]] = timed_hist.get(r["status"], 0) + 1
+        ok_rows = [row for row in r["rows"] if row[2] is not None]
+        timed_runs += len(ok_rows)
+        if len(ok_rows) > 1 and ok_rows[0][2]:
+            timed_worst.append((round(max(b[2] / a[2] for a, b in zip(ok_rows, ok_rows[1:])), 2), r["name"]))
+        if r["status"] not in ("linear", "rec"):
+            R.fail(f"repeat-time:{r['name']}" if r["status"] == "slow" else f"{r['status']}:timed:{r['name']}",
+                   {"timed_repeat": r["name"]},
+                   {"family": r["name"], "why": r["why"], "rows[k,len,seconds,accepted]": r["rows"]})
+    timed_worst.sort(reverse=True)
+
     # directive families: one signature per directive class and measure
     dir_hist = {}
     dir_runs = 0
@@ -857,6 +920,7 @@ def run(tier):
             or accepted < 0.8 * full or len(funcs) < 100
             or lex_runs < 0.9 * len(LEX_SIZES) * len(lex_names)
             or len(run_res) < 100 or run_runs < 0.9 * len(F.RUN_SIZES) * len(run_res)
+            or len(timed_res) < 20 or timed_runs < 2.5 * len(timed_res)
             or len(dir_res) < 30 or dir_runs < 0.9 * (
                 2 * len(F.DIRECTIVE_TIME_SIZES) + len(F.DIRECTIVE_COPY_SIZES)) * len(F.DIRECTIVE_FAMILIES)
             or len(esc) < 1000 or esc_runs < 0.9 * sum(len(d[4]) for d in esc)
@@ -868,16 +932,21 @@ def run(tier):
 
     ratios.sort(reverse=True)
     lex_worst.sort(reverse=True)
-    R.set("states", len(results) + len(lex_results) + len(esc) + len(run_res) + len(dir_res))
-    R.set("transitions", members + lex_runs + esc_runs + run_runs + dir_runs)
-    R.set("traces_validated_against_impl", accepted + lex_runs + esc_runs + run_runs + dir_runs)
-    R.set("evaluations", members + lex_runs + esc_runs + run_runs + dir_runs)
+    R.set("states", len(results) + len(lex_results) + len(esc) + len(run_res) + len(dir_res) + len(timed_res))
+    R.set("transitions", members + lex_runs + esc_runs + run_runs + dir_runs + timed_runs)
+    R.set("traces_validated_against_impl", accepted + lex_runs + esc_runs + run_runs + dir_runs + timed_runs)
+    R.set("evaluations", members + lex_runs + esc_runs + run_runs + dir_runs + timed_runs)
     R.set("distinct_nontrivial", nontrivial + lex_nontrivial + esc_nontrivial + run_nontrivial + dir_runs)
     R.set("directive_families", {"constructs": len(F.DIRECTIVE_FAMILIES),
                                  "families_parse_lexer_copy": len(dir_res),
                                  "lexer_time_sizes": list(F.DIRECTIVE_TIME_SIZES),
                                  "parse_time_sizes": list(F.DIRECTIVE_PARSE_TIME_SIZES),
                                  "copy_sizes": list(F.DIRECTIVE_COPY_SIZES), "measurements": dir_runs})
+    R.set("timed_repeat_families", {"families": len(timed_res), "timings": timed_runs,
+                                    "k": list(F.TIMED_REPEAT_SIZES),
+                                    "k_for_long_items": list(F.TIMED_REPEAT_SIZES_LONG_ITEMS)})
+    R.set("timed_repeat_status_histogram", timed_hist)
+    R.set("largest_timed_repeat_growth_per_4x", timed_worst[:8])
     R.set("directive_status_histogram", dir_hist)
     R.set("directive_bad_by_signature", {k: [len(v), v[:6]] for k, v in sorted(dir_by_sig.items())})
     R.set("largest_directive_ratio_vs_linear", dir_worst[:8])
@@ -912,7 +981,8 @@ def run(tier):
     R.set("lexer_runs", lex_runs)
     R.set("status_histogram", hist)
     R.set("lexer_status_histogram", lex_hist)
-    R.set("distinct_outcomes", len(hist) + len(lex_hist) + len(esc_hist) + len(run_hist) + len(dir_hist))
+    R.set("distinct_outcomes", len(hist) + len(lex_hist) + len(esc_hist) + len(run_hist) + len(dir_hist)
+          + len(timed_hist))
     R.set("distinct_step_values", len(step_values))
     R.set("superlinear_single_constructs", single_sig)
     R.set("superlinear_families_by_signature", {k: [len(v), v[:6]] for k, v in sorted(by_sig.items())})
@@ -923,7 +993,7 @@ def run(tier):
     R.set("productions_reached", len([f for f in funcs if f.startswith("_parse_")]))
     R.set("functions_reached", len(funcs))
     R.set("bounds", bounds)
-    R.set("phase_seconds", dict(zip(("families", "origin_analysis", "lexer_and_runs", "directives", "lexer_escape"),
+    R.set("phase_seconds", dict(zip(("families", "origin_analysis", "lexer_and_runs", "timed_repeats", "directives", "lexer_escape"),
                                     (round(b - a, 1) for a, b in zip(t_ph, t_ph[1:])))))
     R.assumptions += [
         "work = number of Python call events inside c_parser.py, c_lexer.py and ast_transforms.py, and, "
@@ -961,7 +1031,8 @@ def run(tier):
         "linear extrapolation from 2^10 and < 2 s. evaluations = parser runs + lexer sizes timed; "
         "distinct_nontrivial = accepted members of families whose step count strictly grew with the size "
         "parameter (the size really drove the parser) + lexer members that produced at least one token or "
-        "error. Run families: for every constant kind and identifier-like prefix a long run that almost "
+        "error. Timed repetition families: repetition constructs through parse() at k = 512, 2048, 8192 "
+        "(256, 1024, 4096 for 1 KB items), t(4k) <= 10 t(k) once both >= 20 ms. Run families: for every constant kind and identifier-like prefix a long run that almost "
         "matches a longer rule (0x+hex*n, ..+'.', ..+'p', 0b.., digits+'e+', every integer-suffix prefix, "
         "L*n, u8.., _*n, $*n ...), bare on the lexer and embedded as `int x = <run>;` through parse(), at "
         "2^10, 2^12, 2^14, 2^16 characters: the 50 x / 2 s rules plus the growth rule t(4n) <= 8 t(n) once "
@@ -990,6 +1061,14 @@ def replay(rep):
             print("  n=%s len=%s seconds=%s tokens=%s errors=%s" % tuple(row))
         print("verdict:", r["status"], r["why"])
         return 1 if r["status"] != "linear" else 0
+    if "timed_repeat" in c:
+        r = eval_timed_repeat(c["timed_repeat"])
+        print("timed repetition family:", c["timed_repeat"])
+        print("member at k=3:", repr(F.repeat_text(c["timed_repeat"], 3))[:200])
+        for row in r["rows"]:
+            print("  k=%s len=%s seconds=%s" % tuple(row[:3]))
+        print("verdict:", r["status"], r["why"])
+        return 1 if r["status"] == "slow" else 0
     if "directive_family" in c:
         if c["measure"] == "copy":
             r = eval_directive_copy(c["directive_family"])
